@@ -4,7 +4,9 @@ var props = map[string]propSpec{
 	"C01": {Level: "model_checking", Harnesses: []harnessSpec{
 		{Name: "c01", Quick: 60, Thorough: 900},
 		{Name: "agentw", Quick: 60, Thorough: 900, Args: []string{"-prop", "C01"}},
+		{Name: "joined", Quick: 90, Thorough: 900, Args: []string{"-prop", "C01"}},
 	}, Assume: []string{
+		"whole system (harness joined): server main() and agent main() in one explored process, the agent's client reaching the proxy handler through a loop-back transport; K<=3 clients, delay bound 1-3 (thorough 2-4)",
 		"agent side (harness agentw): the agent program between a scripted proxy and a scripted backend with 2-3 requests in flight; delay-bounded schedules (bound 2, thorough 3)",
 		"sequentially consistent interleavings at synchronisation operations; unsynchronised access only to declared non-thread-safe objects (lru.Cache, rand.Rand) is detected by the vector-clock race detector",
 		"K<=2 (quick) / K<=3 (thorough) concurrent clients, P<=2 pollers; preemption bound as reported per scenario",
@@ -35,6 +37,7 @@ var props = map[string]propSpec{
 	"C04": {Level: "model_checking", Harnesses: []harnessSpec{
 		{Name: "agentw", Quick: 120, Thorough: 1200, Args: []string{"-prop", "C04"}},
 		{Name: "c01", Quick: 60, Thorough: 900, Args: []string{"-prop", "C04"}},
+		{Name: "joined", Quick: 90, Thorough: 900, Args: []string{"-prop", "C04"}},
 	}, Assume: []string{
 		"agent side: the agent program (main()) against a scripted proxy; all pending-list histories up to depth 2 (quick) / 3 (thorough) over {[],[a],[b],[a,b],[b,a],[a,a],[a,b,c],error}, fetch outcomes {ok,404,503x3,503 then ok,transport error}, dedup window histories with 999/1000 filler ids; schedules: delay-bounded (every departure from the default scheduler costs one), bound 2 / 3",
 		"proxy side: harness c01 (all interleavings up to the preemption bound) checks that no request id is reported in two pending-list replies",
